@@ -331,12 +331,170 @@ def _run_reconf(case, ctx):
     ctx.sample({"what": what, "first_size": first_size, "second_size": want_size}, "reconf")
 
 
+# ---------------------------------------------------------------- shapes: where the header stands, what the pointers sit in, what they point to
+
+SHAPES_DEF = """
+struct In {{ uint8 z; uint16 *q; }};
+struct Node {{ uint8 v; Node *next; }};
+typedef uint16 *PT;
+flag Fl : uint8 {{ FA = 1, FB = 2 }};
+struct Root {{ uint8 n; uint8 d[n]; uint8 b0 : 3; uint8 b1 : 5; uint16 *p; In in; In arr[2]; char *s; Node *node; PT tp; Fl *fl; uint8 tail; }};
+"""
+
+
+@st.composite
+def shapes_case(draw):
+    return {"shapes": True, "ptr": draw(st.sampled_from(["uint16", "uint32", "uint64"])), "endian": draw(st.sampled_from("<>")), "compiled": draw(st.booleans()),
+            "pad": draw(st.integers(0, 9)), "n": draw(st.integers(0, 3)), "strlen": draw(st.sampled_from([0, 1, 5, 255, 256, 257, 1000])),
+            "far": draw(st.sampled_from(["top-bit", "all-ones", "top-bit+5"])), "vals": draw(st.binary(min_size=16, max_size=16)).hex(),
+            "op_k": draw(st.integers(-2, 300)), "gaps": draw(st.binary(min_size=6, max_size=6)).hex()}
+
+
+def _run_shapes(case, ctx):
+    m = import_repo()
+    w = SCALARS[case["ptr"]][1]
+    bo = "little" if case["endian"] == "<" else "big"
+    cs = m.cstruct(endian=case["endian"], pointer=case["ptr"])
+    r = lib(cs.load, SHAPES_DEF.format(), compiled=case["compiled"])
+    if isinstance(r, Err):
+        raise Violation("definition-rejected", f"{r}", r.where)
+    T = cs.Root
+    pad, n = case["pad"], case["n"]
+    vals = bytes.fromhex(case["vals"])
+    gaps = bytes.fromhex(case["gaps"])
+    hsize = 1 + n + 1 + w + (1 + w) * 3 + w * 4 + 1
+    far = {"top-bit": 1 << (8 * w - 1), "all-ones": (1 << (8 * w)) - 1, "top-bit+5": (1 << (8 * w - 1)) + 5}[case["far"]]
+    # heap (absolute addresses = positions in the stream)
+    heap = bytearray()
+    base = pad + hsize
+
+    def put(b, gap):
+        nonlocal heap
+        heap += bytes([0xCC]) * (gap % 4)
+        a = base + len(heap)
+        heap += b
+        return a
+
+    v1 = int.from_bytes(vals[0:2], bo) | 1
+    v2 = int.from_bytes(vals[2:4], bo) | 2
+    a1 = put(v1.to_bytes(2, bo), gaps[0])
+    a2 = put(v2.to_bytes(2, bo), gaps[1])
+    body = bytes(((vals[4] + i * 7) % 255) + 1 for i in range(case["strlen"]))
+    a3 = put(body + b"\x00", gaps[2])
+    a5 = put(bytes([vals[6] | 1]) + (0).to_bytes(w, bo), gaps[3])
+    a4 = put(bytes([vals[5] | 1]) + a5.to_bytes(w, bo), gaps[4])
+    a6 = put(bytes([vals[7] & 3]), gaps[5])
+    if base + len(heap) >= (1 << (8 * w - 1)):
+        return  # the image does not fit below the 'far' addresses of this width
+    P = lambda a: a.to_bytes(w, bo)  # noqa: E731
+    header = bytes([n]) + bytes(range(0x11, 0x11 + n)) + bytes([0xB5]) + P(a1) + bytes([0x21]) + P(a2) + bytes([0x22]) + P(a1) + bytes([0x23]) + P(far) + P(a3) + P(a4) + P(a2) + P(a6) + bytes([0x7E])
+    assert len(header) == hsize
+    image = bytes(range(0x60, 0x60 + pad)) + header + bytes(heap) + b"\xdd\xdd"
+    what = {"ptr": case["ptr"], "endian": case["endian"], "compiled": case["compiled"], "pad": pad, "n": n, "strlen": case["strlen"], "far": hex(far)}
+    stream = io.BytesIO(image)
+    stream.seek(pad)
+    obj = lib(T, stream)
+    if isinstance(obj, Err):
+        raise Violation("header-parse-raised", f"{what}: {obj}", obj.where)
+    if stream.tell() != pad + hsize:
+        raise Violation("pointer-width", f"{what}: header at {pad} consumed up to {stream.tell()}, expected {pad + hsize}")
+    got = {"n": obj.n, "d": list(obj.d), "b": (int(obj.b0), int(obj.b1)), "p": int(obj.p), "in": (getattr(obj, "in").z, int(getattr(obj, "in").q)),
+           "arr": [(e.z, int(e.q)) for e in obj.arr], "s": int(obj.s), "node": int(obj.node), "tp": int(obj.tp), "fl": int(obj.fl), "tail": obj.tail}
+    b_lo, b_hi = (0xB5 & 7, 0xB5 >> 3) if bo == "little" else (0xB5 >> 5, 0xB5 & 31)
+    want = {"n": n, "d": list(range(0x11, 0x11 + n)), "b": (b_lo, b_hi), "p": a1, "in": (0x21, a2), "arr": [(0x22, a1), (0x23, far)], "s": a3, "node": a4, "tp": a2, "fl": a6, "tail": 0x7E}
+    if got != want:
+        raise Violation("pointer-value", f"{what}: header parsed as {got}, stored (unsigned) values {want}")
+    d = lib(obj.dumps)
+    if isinstance(d, Err) or d != header:
+        raise Violation("dumps-changes-address", f"{what}: dumps {d!r}, header bytes {header.hex()}")
+
+    def deref(ptr_, label, expect):
+        before = stream.tell()
+        r_ = lib(ptr_.dereference)
+        if stream.tell() != before:
+            raise Violation("dereference-moved-stream", f"{what} {label}: tell() {before} -> {stream.tell()}")
+        if isinstance(r_, Err):
+            raise Violation("dereference-raised", f"{what} {label}: {r_}", r_.where)
+        if libside.cplain(r_) != expect:
+            raise Violation("dereference-wrong-target", f"{what} {label}: dereference gave {libside.cplain(r_)!r}, the bytes at {int(ptr_)} decode to {expect!r}")
+        return r_
+
+    inn = getattr(obj, "in")
+    deref(obj.p, "p", v1)
+    deref(inn.q, "in.q (pointer inside a nested structure)", v2)
+    deref(obj.arr[0].q, "arr[0].q (pointer inside an array of structures)", v1)
+    deref(obj.tp, "tp (typedef'd pointer)", v2)
+    deref(obj.s, f"s (char*, {case['strlen']} characters)", body)
+    deref(obj.fl, "fl (flag*)", vals[7] & 3)
+    node = deref(obj.node, "node", {"v": vals[5] | 1, "next": a5})
+    nxt = deref(node.next, "node.next (pointer found through a pointer)", {"v": vals[6] | 1, "next": 0})
+    rnull = lib(nxt.next.dereference)
+    if not (isinstance(rnull, Err) and rnull.type == "NullPointerDereference"):
+        raise Violation("null-dereference", f"{what}: the null pointer ending the chain gave {rnull!r}")
+    # a far address (top bit set) stays an unsigned number and does not dereference into the image
+    rfar = lib(obj.arr[1].q.dereference)
+    if not isinstance(rfar, Err):
+        raise Violation("past-the-end", f"{what}: dereferencing {hex(far)} (far beyond the image) gave {rfar!r}")
+    # ---- a second object of the same class over other bytes at the same addresses
+    heap2 = bytearray(heap)
+    for a_ in (a1, a2, a6):
+        heap2[a_ - base] ^= 0x5A
+    image2 = image[: pad + hsize] + bytes(heap2) + b"\xdd\xdd"
+    s2 = io.BytesIO(image2)
+    s2.seek(pad)
+    obj2 = lib(T, s2)
+    if isinstance(obj2, Err):
+        raise Violation("header-parse-raised", f"{what} (second image): {obj2}", obj2.where)
+    for label, pt, a_ in (("p", obj2.p, a1), ("in.q", getattr(obj2, "in").q, a2), ("tp", obj2.tp, a2)):
+        r2 = lib(pt.dereference)
+        exp2 = int.from_bytes(image2[a_ : a_ + 2], bo)
+        if isinstance(r2, Err) or int(r2) != exp2:
+            raise Violation("dereference-wrong-target", f"{what}: second object over other bytes, {label} at {a_}: dereference gave {r2!r}, its own stream holds {exp2} (first object's stream: {int.from_bytes(image[a_:a_ + 2], bo)})")
+    again = lib((obj.p + 0).dereference)
+    if isinstance(again, Err) or int(again) != v1:
+        raise Violation("dereference-unstable", f"{what}: after a second object was parsed from other bytes, a fresh copy of the first object's p dereferences to {again!r}, expected {v1}")
+    # ---- arithmetic: every operator keeps type and stream
+    k = case["op_k"]
+    import operator as op_
+
+    pp = obj.p
+    for name, fn, operand in (("+", op_.add, k), ("-", op_.sub, k), ("*", op_.mul, 3), ("//", op_.floordiv, 2), ("%", op_.mod, 7), ("**", op_.pow, 1), ("<<", op_.lshift, 1), (">>", op_.rshift, 1), ("&", op_.and_, ~3), ("^", op_.xor, 5), ("|", op_.or_, 0)):
+        q = lib(fn, pp, operand)
+        if isinstance(q, Err) or type(q) is not type(pp) or int(q) != fn(int(pp), operand) or q._stream is not pp._stream:
+            raise Violation("pointer-arithmetic", f"{what}: p {name} {operand} = {q!r} (type {type(q).__name__}); expected a {type(pp).__name__} holding {fn(int(pp), operand)} on the same stream")
+    for name, q in (("p | 0", pp | 0), ("p ** 1", pp ** 1), ("(p + k) - k", (pp + k) - k)):
+        rq = lib(q.dereference)
+        if isinstance(rq, Err) or int(rq) != v1:
+            raise Violation("pointer-arithmetic", f"{what}: ({name}).dereference() = {rq!r}, p.dereference() = {v1}")
+    # ---- dumping: after reassignment, from plain numbers, through write(), of the pointer itself
+    obj.p = obj.p + 1
+    d2 = lib(obj.dumps)
+    exp_h = header[: 1 + n + 1] + P(a1 + 1) + header[1 + n + 1 + w :]
+    if isinstance(d2, Err) or d2 != exp_h:
+        raise Violation("dumps-changes-address", f"{what}: after p = p + 1 dumps gives {d2!r}, expected {exp_h.hex()}")
+    out = io.BytesIO()
+    wr = lib(obj.write, out)
+    if isinstance(wr, Err) or out.getvalue() != exp_h:
+        raise Violation("dumps-changes-address", f"{what}: write() produced {out.getvalue().hex()} ({wr!r}), expected {exp_h.hex()}")
+    pd = lib(obj.tp.dumps)
+    if isinstance(pd, Err) or pd != P(a2):
+        raise Violation("dumps-changes-address", f"{what}: tp.dumps() = {pd!r}, expected {P(a2).hex()}")
+    ctx.count(f"shapes:{case['ptr']}:{case['endian']}:{'compiled' if case['compiled'] else 'interpreted'}")
+    ctx.count(f"shapes:pad:{'zero' if pad == 0 else 'positive'}")
+    ctx.count(f"shapes:strlen:{case['strlen']}")
+    if pad > 0:
+        ctx.mark_nontrivial(case)
+        ctx.sample(what, "shapes")
+
+
 _run_heap = run_case
 
 
 def run_case(case, ctx):  # noqa: F811 - dispatch on the case kind
     if case.get("reconf"):
         return _run_reconf(case, ctx)
+    if case.get("shapes"):
+        return _run_shapes(case, ctx)
     return _run_heap(case, ctx)
 
 
@@ -349,4 +507,5 @@ def stages(tier):
     return [
         HypStage("heap", heap_case, examples=1500 if q else 8000, shards=8 if q else 16),
         HypStage("reconfigure", reconf_case, examples=400 if q else 3000, shards=1 if q else 2),
+        HypStage("shapes", shapes_case, examples=400 if q else 3000, shards=4 if q else 8),
     ]
